@@ -1016,7 +1016,9 @@ func Generate(profile string, seed uint64, idx int, maxOps, maxSess int) *Scenar
 		g.join(g.r.IntN(realms), false)
 	}
 	w := profileWeights(base)
-	if g.hasHist && w.hist == 0 {
+	// (not with an authorizer: a rewritten get_events call would carry the
+	// side-specific publication ids and time strings to an ordinary callee)
+	if g.hasHist && w.hist == 0 && !authz {
 		w.hist = 8
 		w.pub += 10
 	}
